@@ -118,9 +118,11 @@ class Dispatcher(InstructionGenerator):
             return instructions
 
         if len(environment.fleet_ids) > 0:
-            fleet_ids = environment.fleet_ids
+            # a vehicle in several fleets can be matched once per fleet and the instruction generated
+            # last wins: visit the fleets in a fixed order, not in the set's hash order
+            fleet_ids = tuple(sorted(environment.fleet_ids))
         else:
-            fleet_ids = frozenset([None])
+            fleet_ids = (None,)
 
         initial_instructions: Tuple[DispatchTripInstruction, ...] = tuple()
 
